@@ -4,6 +4,7 @@ import (
 	"math/rand"
 	"net/http"
 	"strconv"
+	"strings"
 )
 
 // Verifier trees for C13: fifo.Group and the filter.Filter-based filters
@@ -122,6 +123,8 @@ type vgen struct {
 	o    VGenOpts
 	nv   int
 	nsts int
+
+	schemeUsed bool
 }
 
 // GenVTree draws a verifier-bearing tree.
@@ -189,6 +192,12 @@ func (g *vgen) verifier() *Node {
 			n.A["host"] = tok + ".example.org"
 		} else {
 			n.A["path"] = "/want-" + tok
+		}
+		// at most one url verifier per tree also expects a scheme: a scheme-only
+		// mismatch message carries no verifier token outside the request URL
+		if !g.schemeUsed && g.rng.Intn(2) == 0 {
+			g.schemeUsed = true
+			n.A["scheme"] = Schemes[g.rng.Intn(len(Schemes))]
 		}
 	case KVQS:
 		n.A["name"] = "q" + tok
@@ -284,6 +293,9 @@ func Meet(v *Node, m *Msg) {
 	case KVMethod:
 		m.Method = v.Attr("method")
 	case KVURL:
+		if sc := v.Attr("scheme"); sc != "" {
+			m.Scheme = sc
+		}
 		if h := v.Attr("host"); h != "" {
 			m.Host = h
 		}
@@ -304,16 +316,24 @@ func Meet(v *Node, m *Msg) {
 // HalfMeet makes m carry the verifier's header / parameter with another value
 // or only on one side (the "wrong value" way of not meeting it).
 func HalfMeet(rng *rand.Rand, v *Node, m *Msg) {
+	val := "other"
+	if rng.Intn(3) == 0 {
+		val = "" // present but blank
+	}
 	switch v.Kind {
 	case KVHeader:
-		p := Pair{v.Attr("name"), "other"}
-		if rng.Intn(2) == 0 {
+		p := Pair{v.Attr("name"), val}
+		switch rng.Intn(3) {
+		case 0:
 			m.ReqHdr = append(m.ReqHdr, p)
-		} else {
+		case 1:
+			m.ResHdr = append(m.ResHdr, p)
+		default:
+			m.ReqHdr = append(m.ReqHdr, p)
 			m.ResHdr = append(m.ResHdr, p)
 		}
 	case KVQS:
-		m.Query += "&" + v.Attr("name") + "=other"
+		m.Query += "&" + v.Attr("name") + "=" + val
 	}
 }
 
@@ -351,4 +371,79 @@ func GenTraffic(rng *rand.Rand, t *Node, i int) *Msg {
 		}
 	}
 	return m
+}
+
+// GenAPI draws exchange number i addressed to the proxy's own API (host,
+// path). It is drawn from the same distribution as ordinary traffic with
+// respect to everything filters and verifiers look at (headers present with
+// matching / other / blank values or absent on either side, cookies, query
+// parameters, method unless fixed) and then given the URL an API request must
+// have.
+func GenAPI(rng *rand.Rand, t *Node, i int, host, path, method string, fixedMethod bool) *Msg {
+	m := GenTraffic(rng, t, i)
+	m.API = true
+	m.Scheme, m.Host, m.Path, m.Status = "http", host, path, 200
+	if fixedMethod || rng.Intn(2) == 0 {
+		m.Method = method
+	}
+	return m
+}
+
+// FailPath names the way verifier n's expectation fails for the message of
+// kind k ("" = met): which failure path of the verifier an evaluation takes.
+func FailPath(n *Node, k Kind, st *State) string {
+	switch n.Kind {
+	case KVStatus:
+		if st.Status != n.AttrInt("statusCode") {
+			return "status-differs"
+		}
+	case KVHeader:
+		vs, ok := st.H(k)[http.CanonicalHeaderKey(n.Attr("name"))]
+		switch {
+		case !ok || len(vs) == 0:
+			return "header-missing"
+		case n.Attr("value") == "" || contains(vs, n.Attr("value")):
+			return ""
+		case contains(vs, ""):
+			return "value-blank"
+		}
+		return "value-differs"
+	case KVMethod:
+		if st.Method != n.Attr("method") {
+			return "method-differs"
+		}
+	case KVURL:
+		var parts []string
+		if v := n.Attr("scheme"); v != "" && v != st.Scheme {
+			parts = append(parts, "scheme")
+		}
+		if v := n.Attr("host"); v != "" && v != st.Host {
+			parts = append(parts, "host")
+		}
+		if v := n.Attr("path"); v != "" && v != st.Path {
+			parts = append(parts, "path")
+		}
+		if len(parts) > 0 {
+			return strings.Join(parts, "+") + "-differs"
+		}
+	case KVQS:
+		vs, ok := st.QueryParams()[n.Attr("name")]
+		switch {
+		case !ok:
+			return "key-missing"
+		case n.Attr("value") == "" || contains(vs, n.Attr("value")):
+			return ""
+		case contains(vs, ""):
+			return "value-blank"
+		}
+		return "value-differs"
+	case KVFailure:
+		return "always"
+	case KVPingback:
+		if PingHit(n, st) {
+			return "hit"
+		}
+		return "miss"
+	}
+	return ""
 }
